@@ -69,15 +69,15 @@ func (o op) String() string {
 }
 
 type runner struct {
-	c      *mon.Ctx
-	m      ref.TSPacket
-	p      packet.Packet
-	init   packet.Packet
-	hist   []string
-	kinds  map[string]bool
-	maxFil int
+	c                   *mon.Ctx
+	m                   ref.TSPacket
+	p                   packet.Packet
+	init                packet.Packet
+	hist                []string
+	kinds               map[string]bool
+	maxFil              int
 	refused, structural int
-	dead   bool
+	dead                bool
 }
 
 func (x *runner) fail(sig, detail string, want *ref.Pkt) {
